@@ -36,8 +36,10 @@ func (m *FixPeriodPlanner) Process(ctx *shared.PlannerContext,
 	if (_to-_from)/step >= maxFixPeriodPoints {
 		return nil, &shared.NotSupportedError{Msg: "exceeded maximum resolution of points per timeseries. Try increasing the query resolution step (?step=XX)"}
 	}
-	ctx.From = ctx.From.Truncate(m.Duration)
-	ctx.To = ctx.To.Truncate(m.Duration).Add(m.Duration)
+	// the window is widened to the range buckets the SQL uses: intDiv(timestamp_ns, range) * range counts
+	// from the Unix epoch, time.Truncate from year 1 - the two grids differ for ranges that do not divide 24h
+	ctx.From = time.Unix(0, _from/duration*duration)
+	ctx.To = time.Unix(0, _to/duration*duration+duration)
 
 	_in, err := m.Main.Process(ctx, in)
 	if err != nil {
